@@ -315,3 +315,38 @@ theorem laguerreRsi_ready_stable [Transc α] (N : Nat) (xs ys : List α)
     exact ite_keep_or_some _ _ _
 
 end SF.C08
+
+/-! ### TrendFlex reports from the 1st value (its zero-mean-square fallback is 0, not "hold") -/
+namespace SF.C08
+open SF SF.Spec
+variable {α : Type} [Field α] [LinearOrder α] [IsStrictOrderedRing α] [FloatLike α] [ExactScalar α]
+
+theorem flexNorm_false_some [Transc α] (ds : List α) (h : ds ≠ []) : ∃ v, Spec.flexNorm false ds = some v := by
+  obtain ⟨pre, d, rfl⟩ : ∃ pre d, ds = pre ++ [d] := by
+    induction ds using List.reverseRecOn with
+    | nil => exact absurd rfl h
+    | append_singleton pre d _ => exact ⟨pre, d, rfl⟩
+  simp only [Spec.flexNorm, List.foldl_append, List.foldl_cons, List.foldl_nil, Bool.false_eq_true, if_false]
+  split
+  · exact ⟨_, rfl⟩
+  · exact ⟨_, rfl⟩
+
+theorem trendFlex_ready [Transc α] (N : Nat) (hN : 3 ≤ N) (xs : List α) :
+    (∃ v, (tflexCore (α := α) N).outAfter xs = .ok (some v)) ↔ 1 ≤ xs.length := by
+  rw [C11.trendFlex_eq N hN]
+  cases xs with
+  | nil => simp [Spec.trendFlex]
+  | cons x0 r =>
+    simp only [Spec.trendFlex, List.length_cons, Nat.le_add_left, iff_true]
+    have hne : ((List.range (smoothSeq (flexCoef N) x0 (x0 :: r)).reverse.length).map fun t =>
+        sumL ((List.range (min t (N - 1) + 1)).map fun i =>
+          (smoothSeq (flexCoef N) x0 (x0 :: r)).reverse[t]?.getD (nat 0) - (smoothSeq (flexCoef N) x0 (x0 :: r)).reverse[t - i]?.getD (nat 0)) / nat N) ≠ [] := by
+      have hl : (smoothSeq (flexCoef (α := α) N) x0 (x0 :: r)).length = (x0 :: r).length := by
+        rw [SS.smoothSeq_eq]; exact SS.foldState_length _ _ _
+      intro h0
+      have := congrArg List.length h0
+      simp [hl] at this
+    obtain ⟨v, hv⟩ := flexNorm_false_some _ hne
+    exact ⟨v, by rw [hv]⟩
+
+end SF.C08
